@@ -12,8 +12,8 @@ pub const META_C07: Meta = Meta {
     level: "exploration",
     rule: "Enumerated sub-space (complete in both tiers): every width 1..=64 x 420 fixed 64-bit values (0, +-1, 2^k, 2^k+-1, -2^k for all k, MIN, MAX, MIN+1, MAX-1, alternating patterns) plus 2 PRNG values per batch x 5 paths {input, bidirectional-in, output expected, bidirectional `_out` expected, virtual (64 bit)} x entry forms {non-negative literal in 4 radices, parenthesised expression, variable, value read back from a 64-bit device output}. The oracle is direct, not the reference interpreter: want = v if bits == 64 else v & (2^bits - 1) computed in u128, compared with InputEntry.value as received by the device and with OutputResultEntry.expected; Z/X entries must pass through unchanged. Remaining cases: generator profile `width` (widths from {1,2,7,8,16,31,32,33,48,62,63,64}, boundary literals) against the reference. Non-trivial = the value has bits set at or above `bits`, or bits is 63/64 (counted per program batch, distinct by text).",
     assumptions: &["device-injected values reach expressions unmodified (checked by C04)"],
-    quick_cases: 1728 + 12_000,
-    thorough_cases: 1728 + 600_000,
+    quick_cases: 61728,
+    thorough_cases: 1001728,
     floor: 500,
 };
 
@@ -288,8 +288,8 @@ pub const META_C08: Meta = Meta {
     level: "exploration",
     rule: "Each case is a program of 6 expression trees (depth 1-6 over all 16 binary and 3 unary operators, ite, literals in every radix, variables bound to boundary values, 64-bit device outputs scripted to 0, +-1, MIN, MAX, 2^k, 63, 64, 65; weights favour same-level non-commutative chains, unary under binary and adjacent precedence levels). Every tree is observed through three public views of its full i64 value: vars() after `let t = expr;`, the expected value of a 64-bit output column and of a virtual-signal column holding `(expr)`. The text is produced from the tree with the C08 precedence table, once with minimal and once with redundant parentheses; both must give the value the reference evaluator computes on the tree (wrapping + - * neg, shifts by count&63 with arithmetic >>, truncating / %, comparisons and ! -> 0/1, lazy ite whose unselected arm may read an output answered Z). Trees dividing by zero are left to C10 (dropped before the run, counted). Shard 0 enumerates all op pairs/triples x shapes on fixed valuations. Non-trivial = tree with >= 3 operators from >= 2 precedence levels or a same-level non-commutative chain; evidence lists how many (parent-op, child-op, side) pairs were exercised.",
     assumptions: &["reference evaluator (60 lines, wrapping_* semantics as stated in C08)", "printer inserts parentheses per the C08 table; a printer bug would show as disagreement, not silence"],
-    quick_cases: 12_000,
-    thorough_cases: 800_000,
+    quick_cases: 60000,
+    thorough_cases: 1200000,
     floor: 500,
 };
 
